@@ -1164,7 +1164,13 @@ class Mesh:
 
         """
         elements = self.normalize_elements(elements)
-        p, t, ix = self._reix(self.t[:, elements])
+        if self.doflocs.shape[1] > self.nvertices:
+            # higher-order mesh: keep also the nodes that are not vertices;
+            # the constructor renumbers them after the vertices
+            p, t, ix = self._reix(self.dofs.element_dofs[:, elements])
+            ix = ix[ix < self.nvertices]
+        else:
+            p, t, ix = self._reix(self.t[:, elements])
 
         new_subdomains = None
         if not skip_subdomains and self.subdomains is not None:
